@@ -218,12 +218,13 @@ def gen_cases(rnd, tier):
                 xo[0] = 0.5
             ncross = rnd.choice([1, 1, 2, 3, 4])
             xconfig = [[rnd.randrange(n) for _ in range(nparent)] for _ in range(ncross)]
-            if rnd.random() < 0.3:
-                nm = [rnd.choice([1, 2, 3]) for _ in range(ncross)]
+            # per-cross arrays include exact zeros (a cross that yields nothing must still own its family label)
+            if rnd.random() < 0.35:
+                nm = [rnd.choice([0, 1, 1, 2, 3]) for _ in range(ncross)]
             else:
                 nm = rnd.choice([1, 2])
-            if rnd.random() < 0.3:
-                npg = [rnd.choice([1, 2, 3]) for _ in range(ncross)]
+            if rnd.random() < 0.35:
+                npg = [rnd.choice([0, 1, 1, 2, 3]) for _ in range(ncross)]
             else:
                 npg = rnd.choice([1, 2, 3])
             pat = rnd.choice(patterns)
